@@ -77,6 +77,16 @@ int cmd_z(const Args& a) {
     for (int jt = 0; jt <= 3; ++jt) for (int et = 0; et <= 4; et += 2) for (double d : {4.0, -3.0}) {
       ClipperOffset co; co.AddPaths(S, (JoinType)jt, (EndType)et); Paths64 sol; co.Execute(d, sol); ++nops;
       emit(os, "off", jints({jt, et, (long long)d}), S, sol, Paths64(), 0, {}); }
+    { // the same paths with a repeated vertex and an explicit closing vertex; in the Z build the copies carry DIFFERENT Z labels
+      Paths64 S2 = S; for (auto& p : S2) { p.insert(p.begin() + 1, p[0]); p.push_back(p[0]); }
+#ifdef USINGZ
+      label(S2, 300000);
+#endif
+      for (int jt = 0; jt <= 3; ++jt) for (int et = 0; et <= 4; et += 1) { double d = (jt + et) % 2 ? 5.0 : -2.0;
+        ClipperOffset co; co.AddPaths(S2, (JoinType)jt, (EndType)et); Paths64 sol; co.Execute(d, sol); ++nops;
+        emit(os, "off", jints({jt, et, (long long)d, 2}), S2, sol, Paths64(), 0, {}); }
+      Clipper64 c; c.AddSubject(S2); c.AddClip(C); Paths64 sol, op; c.Execute(ClipType::Xor, FillRule::NonZero, sol, op); ++nops;
+      emit(os, "dupbool", "[4,1]", S2, sol, op, 0, {}); }
     { Rect64 rect(R / 4, R / 4, 3 * R / 4, 3 * R / 4); Paths64 a1 = RectClip(rect, S), a2 = RectClipLines(rect, O); nops += 2;
       emit(os, "rc", "[0]", S, a1, Paths64(), 0, {}); emit(os, "rcl", "[0]", O, a2, Paths64(), 0, {}); }
     });
